@@ -167,6 +167,33 @@ func queriesFor(tier string) []*qgen.Query {
 		&qgen.Query{Root: []*qgen.Node{F("items", F("owner", F("items", F("owner", F("name"))))), F("things", F("__typename"))}},
 		&qgen.Query{Root: []*qgen.Node{F("users", F("friend", F("friend", F("friend", F("id"), F("score"))))), F("empty", F("id")), F("nobody", F("id"))}},
 	)
+	// one named fragment spread at two sites whose other same-alias selections differ
+	// (a merge at one site must not leak into the other through the shared fragment)
+	subs := [][]*qgen.Node{{F("id"), F("name"), F("age")}, {F("id")}, {F("name"), F("score")}, {F("id"), F("name"), F("age"), F("score"), FA("n2", "name")}}
+	extras := [][]*qgen.Node{{F("score")}, {FA("n", "name")}, {F("age"), F("items", F("id"))}}
+	for _, sub := range subs {
+		for ei, e1 := range extras {
+			for _, e2 := range extras[ei+1:] {
+				for _, child := range []string{"friend", "best"} {
+					csub := sub
+					c1, c2 := e1, e2
+					if child == "best" {
+						csub = []*qgen.Node{F("id"), F("name"), F("tags")}
+						c1, c2 = []*qgen.Node{F("owner", F("id"))}, []*qgen.Node{FA("n", "name")}
+					}
+					frs := []*qgen.Fragment{
+						{Name: "SF", On: "User", Body: []*qgen.Node{F(child, csub...), F("id")}},
+						{Name: "SG", On: "User", Body: []*qgen.Node{F(child, c1...)}},
+						{Name: "SH", On: "User", Body: []*qgen.Node{F(child, c2...)}},
+					}
+					a := Arg(FA("a", "user", Spread("SF"), Spread("SG")), "id", int64(1))
+					bq := Arg(FA("b", "user", Spread("SF"), Spread("SH")), "id", int64(2))
+					qs = append(qs, &qgen.Query{Root: []*qgen.Node{a, bq}, Frags: frs}, &qgen.Query{Root: []*qgen.Node{bq, a}, Frags: frs},
+						&qgen.Query{Root: []*qgen.Node{F("users", Spread("SF"), Spread("SG")), FA("c", "users", Spread("SF"), Spread("SH"))}, Frags: frs})
+				}
+			}
+		}
+	}
 	if tier == "thorough" {
 		for _, s := range sets(userBlocks(true), 3) {
 			if len(s.nodes) >= 3 {
